@@ -23,10 +23,11 @@ import (
 
 // lcProcRunner is a runner.Runner around a real process (what a custom RunnerFunc would be).
 type lcProcRunner struct {
-	cmd    *exec.Cmd
-	stdout io.ReadCloser
-	stderr io.ReadCloser
-	kills  int32
+	hostDir, pluginDir string // non-empty: translate unix addresses between the two views (see namespaced)
+	cmd                *exec.Cmd
+	stdout             io.ReadCloser
+	stderr             io.ReadCloser
+	kills              int32
 }
 
 func newLcProcRunner(cmd *exec.Cmd) (*lcProcRunner, error) {
@@ -60,8 +61,45 @@ func (r *lcProcRunner) ID() string {
 	}
 	return fmt.Sprint(r.cmd.Process.Pid)
 }
-func (r *lcProcRunner) PluginToHost(n, a string) (string, string, error) { return n, a, nil }
-func (r *lcProcRunner) HostToPlugin(n, a string) (string, string, error) { return n, a, nil }
+func (r *lcProcRunner) PluginToHost(n, a string) (string, string, error) {
+	if r.hostDir == "" {
+		return n, a, nil
+	}
+	return nsRebase(n, a, r.pluginDir, r.hostDir)
+}
+func (r *lcProcRunner) HostToPlugin(n, a string) (string, string, error) {
+	if r.hostDir == "" {
+		return n, a, nil
+	}
+	return nsRebase(n, a, r.hostDir, r.pluginDir)
+}
+
+// nsRebase: the address translation of a runner whose plugin sees the socket directory under another path (a bind mount
+// in a container; here a symlink pluginDir -> hostDir).  Like such a runner it refuses a path from the wrong side.
+func nsRebase(n, a, from, to string) (string, string, error) {
+	if n != "unix" {
+		return n, a, nil
+	}
+	if !strings.HasPrefix(a, from+string(os.PathSeparator)) {
+		return "", "", fmt.Errorf("address %q is not inside %q", a, from)
+	}
+	return n, filepath.Join(to, strings.TrimPrefix(a, from)), nil
+}
+
+// namespaced makes the runner translate addresses between hostDir (the directory go-plugin created for it) and
+// pluginDir (a symlink to it, the name the plugin is told), and returns the environment entry for the plugin.
+func (r *lcProcRunner) namespaced(hostDir, nsRoot string) (string, error) {
+	hd, err := filepath.EvalSymlinks(hostDir)
+	if err != nil {
+		return "", err
+	}
+	pd := filepath.Join(nsRoot, "sockets")
+	if err := os.Symlink(hd, pd); err != nil {
+		return "", err
+	}
+	r.hostDir, r.pluginDir = hd, pd
+	return plugin.EnvUnixSocketDir + "=" + pd, nil
+}
 
 var _ runner.Runner = (*lcProcRunner)(nil)
 
